@@ -54,18 +54,110 @@ def cfg(eof=False, raw=False, drop=False, abort=False, reset=False, rtw=False, s
                       dl="" if deadlock else "CHECK_DEADLOCK FALSE")
 
 
+SESS_CFG = """SPECIFICATION Spec
+CONSTANTS
+  N = 3
+  Shapes <- %s
+  PoolStaleLen = %s
+  PoolDoublePut = %s
+  Quiesce = %s
+%s
+INVARIANTS RoutedByOwnName OwnStream %s Delivered %s
+%s
+"""
+
+
+def go_sessions(ctx, cases, what, timeout=600):
+    r = ctx.gotest("proxy/tcp", ["proxy/tcp/c09_test.go", "proxy/tcp/c09sess_test.go"], "^TestVerifC09Sessions$", env={"VERIF_IN": cases}, timeout=timeout)
+    return r if ctx.need_go_ok(r, what) else None
+
+
+def sessions_start(ctx, prop):
+    """Starts the TLC runs of Sessions.tla in the background (they overlap with the other model checking)."""
+    ex = ThreadPoolExecutor(max_workers=2)
+    sink = os.path.join(ctx.tmp, "%s.sessions.gen" % prop)
+    return {
+        "mc": tlc_bg(ctx, ex, "Sessions_MC", cfg_text=SESS_CFG % (ctx.pick("MCShapesQuick", "MCShapes"), "FALSE", "FALSE", "FALSE", "VIEW View", "RoutedWhenComplete", "", ""), workers=3, timeout=600),
+        "gen": tlc_bg(ctx, ex, "Sessions_MC", cfg_text=SESS_CFG % (ctx.pick("MCShapesQuick", "MCShapes"), "FALSE", "FALSE", "TRUE", "", "", "GenOut", ""), workers=3, json_sink=sink, timeout=600),
+        "PoolStaleLen": tlc_bg(ctx, ex, "Sessions_MC", cfg_text=SESS_CFG % (ctx.pick("MCShapesQuick", "MCShapes"), "TRUE", "FALSE", "FALSE", "VIEW View", "RoutedWhenComplete", "", "CHECK_DEADLOCK FALSE"), workers=2, timeout=300),
+        "PoolDoublePut": tlc_bg(ctx, ex, "Sessions_MC", cfg_text=SESS_CFG % (ctx.pick("MCShapesQuick", "MCShapes"), "FALSE", "TRUE", "FALSE", "VIEW View", "RoutedWhenComplete", "", "CHECK_DEADLOCK FALSE"), workers=2, timeout=300),
+        "sink": sink,
+    }
+
+
+def sessions(ctx, prop, futs=None):
+    """Histories of several connections through one tcp+sni proxy instance (Sessions.tla): TLC checks every
+    interleaving of up to three connections, generates the client schedules, a seeded sample is played.
+    Shared by C09 (streams) and C10 (routing name)."""
+    futs = futs or sessions_start(ctx, prop)
+    mc = futs["mc"].result()
+    if not ctx.need_tlc_ok(mc, "Sessions"):
+        return False
+    ctx.cover("sessions_mc", states=mc.distinct, transitions=mc.generated)
+    for name in ("PoolStaleLen", "PoolDoublePut"):
+        d = futs[name].result()
+        if d.timed_out or d.error or d.violated not in ("RoutedByOwnName", "OwnStream", "RoutedWhenComplete", "Delivered"):
+            ctx.inconclusive("Sessions: %s = TRUE is not caught by TLC (got %r / %r)" % (name, d.violated, d.error))
+            return False
+    sink = futs["sink"]
+    g = futs["gen"].result()
+    if not ctx.need_tlc_ok(g, "Sessions generator"):
+        return False
+    seen = {}
+    with open(sink) as fh:
+        for line in fh:
+            o = json.loads(line)
+            seen[json.dumps([o["shape"], o["sched"]])] = o
+    keys = sorted(seen)
+    rng = random.Random(ctx.seed * 104729 + 7)
+    pick = rng.sample(keys, min(len(keys), ctx.pick(90, 700)))
+    cases = [dict(shape=seen[k]["shape"], sched=seen[k]["sched"], id=i) for i, k in enumerate(pick)]
+    f = os.path.join(ctx.tmp, "%s.sessions" % prop)
+    vf.write_ndjson(f, cases)
+    r = go_sessions(ctx, f, "%s sessions" % prop)
+    if r is None:
+        return False
+    sm = r.summary
+    ctx.log("sessions: %d interleaving states checked, %d client schedules generated, %d played through one SNIProxy (%d connections; hellos of %d and %d bytes), %d failed, %d without verdict, %.0fs"
+            % (mc.distinct, len(keys), sm["ran"], sm["connections"], sm["hello_sizes"]["S"], sm["hello_sizes"]["L"], sm["fails"], sm["hangs"], r.wall))
+    ctx.cover("sessions", traces_validated_against_impl=sm["ran"], evaluations=sm["connections"], samples=sm.get("samples") or [])
+    ctx.take_failures(r, "sessions")
+    for h in r.of_kind("hang")[:3]:
+        ctx.inconclusive("sessions: a session did not finish once but did when played again: %s" % h.get("msg"))
+    return True
+
+
 _start = threading.Lock()
+_slots = threading.Semaphore(3)
+_pool = ThreadPoolExecutor(max_workers=16)
 
 
-def tlc_bg(ctx, ex, *a, **kw):
-    """ctx.tlc in a pool thread; calls are started one after the other so that each gets its own scratch directory"""
-    with _start:
-        d = os.path.join(ctx.tmp, "tlc%d" % (ctx._tlc_n + 1))
-        f = ex.submit(ctx.tlc, *a, **kw)
-        t0 = time.time()
-        while not os.path.isdir(d) and not f.done() and time.time() - t0 < 20:
-            time.sleep(0.01)
-    return f
+def tlc_bg(ctx, ex, *a, prio=False, **kw):
+    """ctx.tlc in a background thread.  At most three background runs at a time (prio: does not wait for a slot);
+    the calls enter ctx.tlc one after the other so that each gets its own scratch directory."""
+    def job():
+        if not prio:
+            _slots.acquire()
+        try:
+            box = {}
+            with _start:
+                d = os.path.join(ctx.tmp, "tlc%d" % (ctx._tlc_n + 1))
+                th = threading.Thread(target=lambda: box.update(r=ctx.tlc(*a, **kw)))
+                th.start()
+                t0 = time.time()
+                while not os.path.isdir(d) and th.is_alive() and time.time() - t0 < 20:
+                    time.sleep(0.01)
+            th.join()
+            return box.get("r")
+        finally:
+            if not prio:
+                _slots.release()
+    return _pool.submit(job)
+
+
+def tlc_now(ctx, *a, **kw):
+    """ctx.tlc while background runs may be active"""
+    return tlc_bg(ctx, None, *a, prio=True, **kw).result()
 
 
 def go_copy(ctx, cases, what, timeout=300):
@@ -229,6 +321,9 @@ def run(ctx):
         "with a read timeout of 200 ms (alone and with the write timeout) where the upstream answers 500 ms after its trigger, i.e. after the client has been silent for longer than the timeout; "
         "there only the reply is judged (a read timeout may end the silent client's own direction), and a seeded sample of these scenarios is played because each waits for the timeout to pass",
         "ClientHellos on the sni path: real ones of ~200 B, ~1.5 KB, ~5 KB and ~12 KB (long ALPN lists), the long ones followed by more data than they are long",
+        "sessions: up to three connections through one SNIProxy instance, ClientHellos of two sizes (~260 B, ~5 KB), opened in order and at most two at a time; "
+        "TLC checks every interleaving, the harness plays a seeded sample of the schedules in which the client acts when the proxy has come to rest (it waits for the observable effect of each action)",
+        "a scenario or session that does not finish within 10 s is played again twice; three hangs out of three are a violation (no-termination: the specification terminates on everything in the universe), fewer are inconclusive",
         "interleaving of the real run is the scheduler's; only causal order is enforced (never sleeping); a scenario exceeding 10 s is inconclusive",
     ]
     # 2 (started first, collected below). each named deviation, alone, must be caught by TLC
@@ -239,12 +334,13 @@ def run(ctx):
             ("ResetOnError", dict(reset=True, kinds='{"tcp"}', deadlock=False, maxc=1, maxu=2)),
             ("ReadTimeoutArmsWrite", dict(rtw=True, kinds='{"tcp"}', deadlock=False, maxc=1, maxu=1)),
             ("StaleTargetOptions", dict(stale=True, kinds='{"tcp"}', deadlock=False, maxc=1, maxu=1)))
+    sfuts = sessions_start(ctx, "c09")
     ex = ThreadPoolExecutor(max_workers=2)
     futs = [(name, tlc_bg(ctx, ex, "Tunnel_MC", cfg_text=cfg(**kw), workers=2, timeout=300)) for name, kw in devs]
 
     # 1. the design satisfies the property on every scenario and interleaving; terminal states = expected streams
     sink = os.path.join(ctx.tmp, "c09.gen")
-    mc = tlc_bg(ctx, ex2 := ThreadPoolExecutor(max_workers=1), "Tunnel_MC", cfg_text=cfg(maxc=maxc, maxu=maxu, gen=True), workers=6, json_sink=sink,
+    mc = tlc_bg(ctx, None, "Tunnel_MC", prio=True, cfg_text=cfg(maxc=maxc, maxu=maxu, gen=True), workers=6, json_sink=sink,
                 timeout=ctx.pick(240, 1500), heap=ctx.pick(None, "6g")).result()
     ctx.log("Tunnel property configuration: %d generated, %d distinct, depth %d, %.0fs" % (mc.generated, mc.distinct, mc.depth, mc.wall))
     if not ctx.need_tlc_ok(mc, "Tunnel (property configuration)"):
@@ -252,7 +348,7 @@ def run(ctx):
     ctx.cover("mc", states=mc.distinct, transitions=mc.generated, exhaustive=True)
     if ctx.thorough:
         # vacuity: every action of the specification is taken (measured on the quick universe, where -coverage is cheap)
-        cv = ctx.tlc("Tunnel_MC", cfg_text=cfg(maxc=2, maxu=2), workers=8, timeout=600, coverage=True)
+        cv = tlc_now(ctx, "Tunnel_MC", cfg_text=cfg(maxc=2, maxu=2), workers=8, timeout=600, coverage=True)
         if not ctx.need_tlc_ok(cv, "Tunnel (coverage run)"):
             return
         seen = set(__import__("re").findall(r"<(\w+) line[^>]*>: \d+:\d+", cv.out))
@@ -277,10 +373,10 @@ def run(ctx):
 
     # 2b. one copy direction against the io.Reader / io.Writer contracts (Copier.tla), bound to the real copyBuffer
     csink = os.path.join(ctx.tmp, "c09.copier")
-    cm = ctx.tlc("Copier_MC", cfg_text=COPIER_CFG % ("FALSE", ctx.pick(3, 4), "GenOut"), workers=4, json_sink=csink, timeout=300)
+    cm = tlc_now(ctx, "Copier_MC", cfg_text=COPIER_CFG % ("FALSE", ctx.pick(3, 4), "GenOut"), workers=4, json_sink=csink, timeout=300)
     if not ctx.need_tlc_ok(cm, "Copier"):
         return
-    cd = ctx.tlc("Copier_MC", cfg_text=COPIER_CFG % ("TRUE", 2, ""), workers=2, timeout=120)
+    cd = tlc_now(ctx, "Copier_MC", cfg_text=COPIER_CFG % ("TRUE", 2, ""), workers=2, timeout=120)
     if cd.timed_out or cd.error or cd.violated != "AllDelivered":
         ctx.inconclusive("Copier: DropDataWithEOF = TRUE does not violate AllDelivered (got %r / %r)" % (cd.violated, cd.error))
         return
@@ -322,6 +418,10 @@ def run(ctx):
     ctx.cover(rule="one case per (scenario of the TLC universe, path, byte spelling); the expected streams are the terminal states TLC reached for that scenario; "
                    "evaluations = endpoint streams compared; non-trivial = distinct case with data in both directions")
 
+    # 3b. histories of several connections through one proxy instance
+    if not sessions(ctx, "c09", sfuts):
+        return
+
     # 4. binding self-test: a corrupted expectation must be rejected by the harness
     bad = []
     for c in tcp:
@@ -349,6 +449,12 @@ def replay(ctx, rp):
     c = rp["replay"]["case"]
     one = os.path.join(ctx.tmp, "c09.replay")
     vf.write_ndjson(one, [c])
+    if "sched" in c:
+        r = go_sessions(ctx, one, "C09 replay")
+        if r is not None:
+            ctx.cover(evaluations=r.summary.get("connections", 0), traces_validated_against_impl=1)
+            ctx.take_failures(r, "sessions")
+        return
     if "reads" in c:
         r = go_copy(ctx, one, "C09 replay")
         if r is not None:
